@@ -686,6 +686,10 @@ def run(ctx, facts):
     # 6 RESETBEFORE
     from . import C13
     C13.require_verified_reset(ctx, facts, [C13.FY], "RESETBEFORE")
+    # a ProbMinHash2 brought back by reset() must sketch like a new one: registers left from the previous set prune the next
+    ctx.rule("REINIT", "ProbMinHash2::reset re-establishes every live mutated field with the constructor's value (RESET analysis of C13): "
+                       "the signature of a reused sketcher is a function of the set hashed after the reset alone")
+    C13.require_verified_reset(ctx, facts, [C13.P2], "REINIT")
     fn = facts.fn(P2 + "hash_item")
     t = tree_of(fn)
     resets = self_method_calls(fn, "permut_generator", ["reset"])
